@@ -1040,3 +1040,144 @@ Proof.
     { rewrite app_nth2 by lia. replace (S (length (jars H)) - length (jars H)) with 1 by lia. reflexivity. }
     rewrite N0, N1. cbn [map upd_nth repeat NSL NMP F_AFTER sl_read mp_read]. rewrite R1. reflexivity.
 Qed.
+
+(* ================= programs ================= *)
+Definition inv (st : state) (ow : owners) : Prop :=
+  lens (hp st) ow /\ NoDup (map fst (objs st)) /\
+  forall id o, In (id, o) (objs st) -> obj_ok (hp st) ow id o.
+
+Lemma NoDup_snoc {A} (l : list A) k : NoDup l -> ~ In k l -> NoDup (l ++ [k]).
+Proof.
+  induction 1 as [|x l Hx Hl IH]; simpl; intros Hn.
+  - constructor; [intros []|constructor].
+  - constructor.
+    + rewrite in_app_iff. intros [Hi|[Hi|[]]]; [auto|]. subst. apply Hn. auto.
+    + apply IH. auto.
+Qed.
+
+Section AssocLists.
+  Context {B C : Type}.
+  Lemma aget_In k (l : list (oid * B)) x : aget oid_eqb k l = Some x -> In (k, x) l.
+  Proof.
+    induction l as [|[j y] t IH]; simpl; [discriminate|].
+    destruct (oid_eqb_spec j k); [intros E; inversion E; subst; auto|auto].
+  Qed.
+  Lemma aget_map (F : B -> C) k (l : list (oid * B)) :
+    aget oid_eqb k (map (fun io => (fst io, F (snd io))) l) = option_map F (aget oid_eqb k l).
+  Proof. induction l as [|[j y] t IH]; simpl; auto. destruct (oid_eqb j k); auto. Qed.
+  Lemma aset_keys k (x : B) l :
+    map fst (aset oid_eqb k x l) = if existsb (fun j => oid_eqb j k) (map fst l) then map fst l else map fst l ++ [k].
+  Proof.
+    induction l as [|[j y] t IH]; simpl; auto. destruct (oid_eqb j k) eqn:E; simpl; auto.
+    rewrite IH. destruct (existsb _ _); reflexivity.
+  Qed.
+  Lemma aset_NoDup k (x : B) l : NoDup (map fst l) -> NoDup (map fst (aset oid_eqb k x l)).
+  Proof.
+    intros N. rewrite aset_keys. destruct (existsb _ _) eqn:E; auto.
+    apply NoDup_snoc; auto.
+    intros Hk. assert (existsb (fun j0 => oid_eqb j0 k) (map fst l) = true); [|congruence].
+    apply existsb_exists. exists k. split; auto. apply oid_eqb_refl.
+  Qed.
+  Lemma aset_In k (x : B) l j y : NoDup (map fst l) ->
+    In (j, y) (aset oid_eqb k x l) -> (j, y) = (k, x) \/ (In (j, y) l /\ j <> k).
+  Proof.
+    induction l as [|[i z] t IH]; simpl; intros N HI.
+    - destruct HI as [E|[]]; auto.
+    - inversion N; subst. destruct (oid_eqb_spec i k).
+      + subst. destruct HI as [E|HI]; [auto|]. right. split; auto.
+        intros ->. apply H1. change k with (fst (k, y)). now apply in_map.
+      + destruct HI as [E|HI]; [inversion E; subst; auto|].
+        destruct (IH H2 HI) as [E|[HI' Nk]]; auto.
+  Qed.
+  Lemma aset_map_ext (g g' : oid * B -> oid * C) k (v : C) l :
+    NoDup (map fst l) -> (forall io, fst (g io) = fst io) -> (forall io, fst (g' io) = fst io) ->
+    (forall io, In io l -> fst io <> k -> g' io = g io) ->
+    aset oid_eqb k v (map g' l) = aset oid_eqb k v (map g l).
+  Proof.
+    intros N G G' Hx. induction l as [|io t IH]; simpl; auto.
+    inversion N; subst.
+    destruct (g' io) as [j' y'] eqn:E'. destruct (g io) as [j y] eqn:E.
+    assert (J' : j' = fst io) by (rewrite <- (G' io), E'; reflexivity).
+    assert (J : j = fst io) by (rewrite <- (G io), E; reflexivity). subst j j'.
+    destruct (oid_eqb_spec (fst io) k) as [Ek|Nk].
+    - f_equal. apply map_ext_in. intros a Ha. apply Hx; simpl; auto.
+      intros Ea. apply H1. rewrite Ek, <- Ea. now apply in_map.
+    - rewrite <- E, <- E', (Hx io); simpl; auto. rewrite E. f_equal. apply IH; auto.
+      intros a Ha. apply Hx; simpl; auto.
+  Qed.
+End AssocLists.
+
+Lemma aset_map_abs (F : obj -> vobj) k o' l :
+  map (fun io => (fst io, F (snd io))) (aset oid_eqb k o' l) = aset oid_eqb k (F o') (map (fun io => (fst io, F (snd io))) l).
+Proof. induction l as [|[j y] t IH]; simpl; auto. destruct (oid_eqb j k); simpl; auto. now rewrite IH. Qed.
+
+Lemma view_abs st id : view st id = vget id (abs_state st).
+Proof.
+  unfold view, vget, abs_state, oget. rewrite (aget_map (abs_obj (hp st))).
+  destruct (aget oid_eqb id (objs st)); reflexivity.
+Qed.
+
+(* the common shape: object `id` is (re)defined as o' over the heap H', every other object is framed *)
+Lemma inv_update st ow id o' H' ow' v' :
+  inv st ow -> lens H' ow' ->
+  (forall j o, In (j, o) (objs st) -> j <> id -> obj_ok H' ow' j o /\ abs_obj H' o = abs_obj (hp st) o) ->
+  obj_ok H' ow' id o' -> abs_obj H' o' = v' ->
+  inv {| hp := H'; objs := oset id o' (objs st) |} ow' /\
+  abs_state {| hp := H'; objs := oset id o' (objs st) |} = vset id v' (abs_state st).
+Proof.
+  intros (L & N & AO) L' Hoth Ho' Ev. split.
+  - split; [exact L'|]. split; [now apply aset_NoDup|]. cbn [hp objs]. intros j o HI.
+    destruct (aset_In _ _ _ _ _ N HI) as [E|[HI' Nk]]; [inversion E; subst; exact Ho'|]. now apply Hoth.
+  - unfold abs_state, vset, oset. cbn [hp objs]. rewrite aset_map_abs, Ev.
+    apply aset_map_ext; auto. intros [j o] HI Nk. simpl in *. f_equal. now apply (Hoth j o HI Nk).
+Qed.
+
+Theorem step_sim grow st ow o :
+  inv st ow -> op_nojar o ->
+  exists ow', inv (step grow deep_tbl st o) ow' /\ abs_state (step grow deep_tbl st o) = vstep (abs_state st) o.
+Proof.
+  intros I NJ. pose proof I as (L & N & AO). destruct o as [c|id s|src dst|c r|r]; cbn [step vstep].
+  - (* C() *)
+    destruct (new_client (hp st)) as [H' o'] eqn:E.
+    destruct (new_client_sim _ ow (OC c) _ _ L E) as (a & b & c0 & d & L' & F & O' & V).
+    exists (ext ow a b c0 d). apply (inv_update st ow (OC c) o' H' (ext ow a b c0 d) vclient0 I L'); auto.
+    intros j o HI _. apply (obj_frame _ _ _ a b c0 d _ _ _ _ _ _ (AO _ _ HI) F); auto.
+  - (* setter *)
+    unfold vget. rewrite <- view_abs. unfold view. destruct (oget id (objs st)) as [ob|] eqn:G; [|exists ow; auto].
+    destruct (apply_setter grow (hp st) ob s) as [H' o'] eqn:E.
+    pose proof (AO _ _ (aget_In _ _ _ G)) as Oid.
+    destruct (apply_setter_sim grow _ ow id ob s _ _ L Oid NJ E) as (a & b & c0 & d & L' & F & O' & V).
+    exists (ext ow a b c0 d). apply (inv_update st ow id o' H' (ext ow a b c0 d) _ I L'); auto.
+    intros j o HI Nj. apply (obj_frame _ _ _ a b c0 d _ _ _ _ _ _ (AO _ _ HI) F); unfold WAid, WMid, WOid; simpl; auto.
+  - (* Clone *)
+    unfold vget. rewrite <- view_abs. unfold view. destruct (oget (OC src) (objs st)) as [ob|] eqn:G; [|exists ow; auto].
+    destruct (clone_obj grow deep_tbl (hp st) ob) as [H' o'] eqn:E.
+    pose proof (AO _ _ (aget_In _ _ _ G)) as Oid.
+    destruct (clone_obj_sim grow _ ow (OC src) (OC dst) ob _ _ L Oid E) as (a & b & c0 & d & L' & F & O' & V).
+    exists (ext ow a b c0 d). apply (inv_update st ow (OC dst) o' H' (ext ow a b c0 d) _ I L'); auto.
+    intros j o HI _. apply (obj_frame _ _ _ a b c0 d _ _ _ _ _ _ (AO _ _ HI) F); auto.
+  - (* R() *)
+    unfold vget. rewrite <- view_abs. unfold view. destruct (oget (OC c) (objs st)) as [ob|] eqn:G; [|exists ow; auto].
+    destruct (new_req grow (hp st) c ob) as [H' o'] eqn:E.
+    pose proof (AO _ _ (aget_In _ _ _ G)) as Oid.
+    destruct (new_req_sim grow _ ow c (OR r) ob _ _ L Oid E) as (a & b & c0 & d & L' & F & O' & V).
+    exists (ext ow a b c0 d). apply (inv_update st ow (OR r) o' H' (ext ow a b c0 d) _ I L'); auto.
+    intros j o HI _. apply (obj_frame _ _ _ a b c0 d _ _ _ _ _ _ (AO _ _ HI) F); auto.
+  - exists ow; auto.
+Qed.
+
+Lemma inv_init : inv init_state {| owA := []; owM := []; owR := []; owJ := [] |}.
+Proof. split; [repeat split|]. split; [constructor|intros id o []]. Qed.
+
+Theorem run_sim grow p : forall st ow, inv st ow -> Forall op_nojar p ->
+  abs_state (run grow deep_tbl p st) = vrun p (abs_state st).
+Proof.
+  induction p as [|o p IH]; intros st ow I F; [reflexivity|].
+  inversion F; subst. cbn [run vrun fold_left].
+  destruct (step_sim grow st ow o I H1) as (ow' & I' & E). unfold run in IH. rewrite (IH _ ow' I' H2), E. reflexivity.
+Qed.
+
+(* the reference-heap model, run on any program of API calls, reads exactly as the value model *)
+Theorem heap_refines_value grow p : Forall op_nojar p ->
+  abs_state (run grow deep_tbl p init_state) = vrun p [].
+Proof. intros F. exact (run_sim grow p _ _ inv_init F). Qed.
